@@ -14,6 +14,13 @@ import (
 
 const c02Prelude = `_log = []
 _res = []
+class UE(Exception):
+    pass
+class UE2(UE):
+    def __init__(self, a):
+        self.a = a
+class UK(KeyError, UE):
+    pass
 class CM:
     def __init__(self, tag, sup):
         self.tag = tag
@@ -32,6 +39,12 @@ const c02Drive = `def drive(k):
     _log.append('k')
     try:
         _res.append(fn(k))
+    except UE2 as e:
+        _res.append(('UE2', e.a))
+    except UK:
+        _res.append('UK')
+    except UE:
+        _res.append('UE')
     except ZeroDivisionError:
         _res.append('ZeroDivisionError')
     except IndexError:
@@ -82,7 +95,7 @@ type c02Ctx struct {
 func (c *c02Gen) nid() int { c.id++; return c.id }
 
 var c02Raises = []string{"KeyError", "IndexError", "ZeroDivisionError", "ValueError", "TypeError", "KeyError('x')", "ValueError(1, 2)",
-	"LookupError", "ArithmeticError", "Exception", "RuntimeError('r')", "BaseException"}
+	"LookupError", "ArithmeticError", "Exception", "RuntimeError('r')", "BaseException", "UE", "UE('u')", "UE2(5)", "UK('k')", "UK"}
 var c02RaiseExprs = []string{"1 // 0", "[][0]", "{}['x']", "int('z')", "None.a", "undefined_name"}
 
 func (c *c02Gen) exitAction(cx c02Ctx) string {
@@ -211,11 +224,11 @@ func (c *c02Gen) block(cx c02Ctx, minStmts int) string {
 				var head string
 				switch g.Weighted(3, 2, 2, 1, 1) {
 				case 0:
-					head = "except " + g.Str("KeyError", "IndexError", "ZeroDivisionError", "ValueError", "TypeError", "LookupError", "ArithmeticError", "Exception", "NameError", "AttributeError", "RuntimeError") + ":"
+					head = "except " + g.Str("KeyError", "IndexError", "ZeroDivisionError", "ValueError", "TypeError", "LookupError", "ArithmeticError", "Exception", "NameError", "AttributeError", "RuntimeError", "UE", "UE2", "UK") + ":"
 				case 1:
-					head = "except (" + g.Str("KeyError", "IndexError", "ZeroDivisionError") + ", " + g.Str("ValueError", "TypeError", "LookupError") + "):"
+					head = "except (" + g.Str("KeyError", "IndexError", "ZeroDivisionError", "UE2") + ", " + g.Str("ValueError", "TypeError", "LookupError", "UK") + "):"
 				case 2:
-					head = "except " + g.Str("KeyError", "LookupError", "Exception", "ValueError", "BaseException") + " as e:"
+					head = "except " + g.Str("KeyError", "LookupError", "Exception", "ValueError", "BaseException", "UE") + " as e:"
 					c.kinds["except-as"] = true
 				case 3:
 					head = "except BaseException:"
